@@ -244,3 +244,62 @@ func SubstTerm(t *Term, m map[ssa.Value]*Term) *Term {
 	}
 	return &nt
 }
+
+// Callees returns the repository functions a call instruction may enter: the static
+// callee, closures passed as arguments, or — for interface invokes — every
+// repository method of that name whose receiver implements the interface.
+func (p *Program) Callees(ci ssa.CallInstruction) []*ssa.Function {
+	var out []*ssa.Function
+	c := ci.Common()
+	if c.IsInvoke() {
+		if it, ok := c.Value.Type().Underlying().(*types.Interface); ok {
+			out = append(out, p.Implementations(it, c.Method.Name())...)
+		}
+	} else if callee := c.StaticCallee(); callee != nil && callee.Blocks != nil {
+		out = append(out, callee)
+	}
+	for _, a := range c.Args {
+		if mc, ok := a.(*ssa.MakeClosure); ok {
+			if f, ok := mc.Fn.(*ssa.Function); ok {
+				out = append(out, f)
+			}
+		}
+	}
+	return out
+}
+
+// ReachableFrom computes the repository functions reachable from roots through Callees
+// (and through function literals defined inside reached functions).
+func (p *Program) ReachableFrom(roots ...*ssa.Function) map[*ssa.Function]bool {
+	repo := map[*ssa.Function]bool{}
+	for _, f := range p.repoFns {
+		repo[f] = true
+	}
+	seen := map[*ssa.Function]bool{}
+	var work []*ssa.Function
+	for _, r := range roots {
+		if r != nil && !seen[r] {
+			seen[r] = true
+			work = append(work, r)
+		}
+	}
+	for len(work) > 0 {
+		f := work[len(work)-1]
+		work = work[:len(work)-1]
+		for _, ci := range AllCalls(f) {
+			for _, callee := range p.Callees(ci) {
+				if repo[callee] && !seen[callee] {
+					seen[callee] = true
+					work = append(work, callee)
+				}
+			}
+		}
+		for _, an := range f.AnonFuncs {
+			if !seen[an] {
+				seen[an] = true
+				work = append(work, an)
+			}
+		}
+	}
+	return seen
+}
